@@ -136,3 +136,13 @@ func H_K_SpecSym(_ []int) {
 	vAssert(sSegSeg(a, b, c, d) == sSegSeg(c, d, a, b), "K4.spec-symmetric")
 	vCover("specsym.done")
 }
+
+// K0: the library's zero test is exact (no tolerance): eqZero(x) <=> x == 0 for every finite x.
+// IntersectsSegment and CollinearPoint decide collinearity with it; the path-wise K3 job uses it as a contract.
+func spec_eqZero(x float64) bool { return x == 0 }
+
+func H_K_EqZero(_ []int) {
+	x := vF("x", 0)
+	vAssert(eqZero(x) == (x == 0), "K0.eqzero-exact")
+	vCover("eqzero.done")
+}
